@@ -543,6 +543,7 @@ func (e *Ec2Sim) DescribeInstanceStatusPages(in *ec2.DescribeInstanceStatusInput
 		pages = append(pages, cur)
 	}
 	e.rec.record(cDescribeStatus(ids), true, rStatus(pages))
+	at := 0
 	for pi, pg := range pages {
 		out := &ec2.DescribeInstanceStatusOutput{}
 		for _, r := range pg {
@@ -550,7 +551,8 @@ func (e *Ec2Sim) DescribeInstanceStatusPages(in *ec2.DescribeInstanceStatusInput
 			if !r {
 				st = "pending"
 			}
-			out.InstanceStatuses = append(out.InstanceStatuses, &ec2.InstanceStatus{InstanceState: &ec2.InstanceState{Name: awsapi.String(st)}})
+			out.InstanceStatuses = append(out.InstanceStatuses, &ec2.InstanceStatus{InstanceId: awsapi.String(ids[at]), InstanceState: &ec2.InstanceState{Name: awsapi.String(st)}})
+			at++
 		}
 		if !fn(out, pi == len(pages)-1) {
 			break
